@@ -892,6 +892,11 @@ def backend_checks(ld, r, tier, prop):
                                 if x != p and r.random() < 0.25:
                                     t[x] = r.choice([('raise', 'FilterException'), ('val', None), ('raise', 'FilterException')])
                             tables.append((t, r.choice([None, None, False, True, True, (KeyError,), (ld.FilterException, IndexError), KeyError])))
+                        if not thread:
+                            # on every process pool: the library's own FilterException, NOT selected for catching, at one position - it
+                            # reaches the consumer like any other error (a worker that dies of it would leave the consumer waiting forever)
+                            tables.append(({r.randrange(n): ('raise', 'FilterException')}, None))
+                            tables.append(({r.randrange(n): ('raise', 'FilterException')}, False))
                     for (t, catch) in tables:
                         if catch and be in ('concurrent_mp', 'multiprocessing'):
                             continue        # plain pickle cannot transfer the local catcher function: refused loudly (AttributeError) before any example
@@ -913,7 +918,19 @@ def backend_checks(ld, r, tier, prop):
                         for name, make in variants:
                             runs += 1
                             common.tick()
-                            got = b_observe(make)
+                            if thread:
+                                got = b_observe(make)
+                            else:
+                                # a consumer that is left waiting forever (a pool worker died, a result never arrives) is reported with the
+                                # configuration that did it
+                                try:
+                                    with common.watchdog(60, 'process-pool run'):
+                                        got = b_observe(make)
+                                except common.ImplMisbehaviour:
+                                    got = ([], ('the consumer is still waiting after 60 s', None))
+                                if got[1] and got[1][0] in ('ImplMisbehaviour', 'the consumer is still waiting after 60 s'):
+                                    fails.append(f'backend {be} {name} num_workers={w} buffer_size={b} n={n} catch={catch} function table {t}: the consumer never gets an answer (no example, no exception, no end of the stream within 60 s); sequential semantics give {exp[0]} then {exp[1]}')
+                                    return fails, runs
                             if name.endswith('.items'):
                                 # (key, value) pairs: check the keys, then compare the values like the other variants
                                 vals, okk = [], True
